@@ -60,6 +60,9 @@ type scfg struct {
 	// announces itself to that member and acknowledges the view it wants to impose.
 	// "<tag>:<view>", tag in own|invoker|absent, view in withme|withabsent
 	React string `json:"react,omitempty"`
+	// Repeat: every schedule is executed this many times (the implementation iterates over a map
+	// whose order the harness does not own; the outcome may depend on it)
+	Repeat int `json:"repeat,omitempty"`
 	// Slow: directed links whose packets are held back until Release probe intervals have passed
 	// (an asymmetric partition that heals); SlowMask is its compact form for the case id
 	Slow    [][2]uint16 `json:"slow_links,omitempty"`
@@ -320,6 +323,82 @@ func run(c *harness.C, k scfg, r world.Chooser) *out {
 					return out
 				}
 			}
+			if k.React == "split-views" {
+				// two Byzantine members: b1 announces {h1,h2,b1} to h1 only, b2 announces {h1,h2,b2} to
+				// h2 only; each of them confirms whatever list an honest member asks about
+				h1, h2, b1, b2 := k.Invokers[0], k.Invokers[1], k.Byz[0], k.Byz[1]
+				srt := func(l ...uint16) []uint16 {
+					sort.Slice(l, func(i, j int) bool { return l[i] < l[j] })
+					return l
+				}
+				v1, v2 := srt(h1, h2, b1), srt(h1, h2, b2)
+				w.Net.Filter = func(p *world.Packet) []*world.Packet {
+					if p.Injected || !isIn(p.From, k.Invokers) || p.Type != 1 || len(p.Data) < 33 {
+						return []*world.Packet{p}
+					}
+					first := k.U[0]
+					if first == p.From {
+						first = k.U[1]
+					}
+					if p.To != first {
+						return []*world.Packet{p}
+					}
+					out := []*world.Packet{p}
+					say := func(from, to uint16, data []byte) {
+						mu.Lock()
+						if heard[to] == nil {
+							heard[to] = map[uint16]bool{}
+						}
+						heard[to][from] = true
+						mu.Unlock()
+						out = append(out, &world.Packet{From: from, To: to, Type: 1, Topic: topic, Data: data})
+					}
+					switch p.Data[0] {
+					case 1: // an announcement: answer with the split view
+						if p.From == h1 {
+							say(b1, h1, encode(1, tagOf(b1), v1))
+						} else {
+							say(b2, h2, encode(1, tagOf(b2), v2))
+						}
+					case 2: // a query: both confirm the very list that is asked about
+						for _, b := range []uint16{b1, b2} {
+							d := append([]byte{3}, tagOf(b)...)
+							d = append(d, p.Data[33:]...)
+							say(b, p.From, d)
+						}
+					}
+					return out
+				}
+			}
+			if k.React == "stray-responses" {
+				// configured members that do not take part answer every announcement and every query
+				// of an honest member with a confirmation (of the asked list, or of the invokers' list)
+				inv := append([]uint16(nil), k.Invokers...)
+				sort.Slice(inv, func(i, j int) bool { return inv[i] < inv[j] })
+				w.Net.Filter = func(p *world.Packet) []*world.Packet {
+					if p.Injected || !isIn(p.From, k.Invokers) || p.Type != 1 || len(p.Data) < 33 {
+						return []*world.Packet{p}
+					}
+					first := k.U[0]
+					if first == p.From {
+						first = k.U[1]
+					}
+					if p.To != first {
+						return []*world.Packet{p}
+					}
+					out := []*world.Packet{p}
+					for _, b := range k.Byz {
+						var d []byte
+						if p.Data[0] == 2 {
+							d = append(append([]byte{3}, tagOf(b)...), p.Data[33:]...)
+						} else {
+							d = encode(3, tagOf(b), inv)
+						}
+						out = append(out, &world.Packet{From: b, To: p.From, Type: 1, Topic: topic, Data: d})
+					}
+					return out
+				}
+			}
 			parts := strings.SplitN(k.React+":", ":", 3)
 			tg := tagOf(adv)
 			switch {
@@ -519,7 +598,7 @@ func oracle(c *harness.C, k scfg, o *out, rp replay, deviations int) {
 			}
 		}
 	}
-	if len(k.Byz) == 0 && len(k.Out) == 0 {
+	if len(k.Byz) == 0 && len(k.Out) == 0 || k.React == "stray-responses" {
 		if len(k.Invokers) == k.E && completers != k.E {
 			var errs []string
 			for _, id := range k.Invokers {
@@ -544,9 +623,11 @@ func dfsCase(k scfg, bound int, pos, alt int, isRoot bool) harness.Case {
 		if c.Replay != nil {
 			var rp replay
 			if json.Unmarshal(c.Replay, &rp) == nil {
-				r := &explore.Recorder{Prefix: rp.Choices}
-				o := run(c, rp.Cfg, r)
-				oracle(c, rp.Cfg, o, rp, r.Deviations())
+				for i := 0; i < max(1, rp.Cfg.Repeat); i++ {
+					r := &explore.Recorder{Prefix: rp.Choices}
+					o := run(c, rp.Cfg, r)
+					oracle(c, rp.Cfg, o, rp, r.Deviations())
+				}
 			}
 			return
 		}
@@ -561,6 +642,11 @@ func dfsCase(k scfg, bound int, pos, alt int, isRoot bool) harness.Case {
 			c.Add("transitions", len(last.trace))
 			rp := replay{Cfg: k, Choices: explore.Trim(r.Choices())}
 			oracle(c, k, last, rp, r.Deviations())
+			for i := 1; i < k.Repeat; i++ {
+				o2 := run(c, k, &explore.Recorder{Prefix: r.Choices()})
+				c.Add("executions", 1)
+				oracle(c, k, o2, rp, r.Deviations())
+			}
 			var res []string
 			for _, id := range k.Invokers {
 				if cm := last.m[id]; cm != nil {
@@ -757,6 +843,19 @@ func gen(c *harness.C) []harness.Case {
 		}
 		plans = append(plans, plan{scfg{Name: "retry", U: []uint16{1, 2, 3, 4}, E: 3, Invokers: []uint16{1, 2}, Byz: []uint16{3, 4}, React: "retry-split", Retry: rt}, bd})
 		plans = append(plans, plan{scfg{Name: "retry", U: []uint16{1, 2, 3, 4}, E: 3, Invokers: []uint16{2, 1}, Byz: []uint16{4, 3}, React: "retry-split", Retry: rt}, bd})
+	}
+	// two Byzantine members that show each honest member another view and confirm anything; configured
+	// members that stay out of the run but send confirmations nobody asked them for (these never
+	// announce themselves, so they do not change anybody's view: the honest run completes)
+	for _, bd := range []int{1} {
+		if c.Thorough() {
+			bd = 2
+		}
+		plans = append(plans, plan{scfg{Name: "split-views", U: []uint16{1, 2, 3, 4}, E: 3, Invokers: []uint16{1, 2}, Byz: []uint16{3, 4}, React: "split-views", Repeat: 24}, bd})
+		plans = append(plans, plan{scfg{Name: "split-views", U: []uint16{1, 2, 3, 4}, E: 3, Invokers: []uint16{2, 1}, Byz: []uint16{4, 3}, React: "split-views", Repeat: 24}, bd})
+		plans = append(plans, plan{scfg{Name: "stray-responses", U: []uint16{1, 2, 3, 4, 5, 6}, E: 3, Invokers: []uint16{1, 2, 3}, Byz: []uint16{4, 5, 6}, React: "stray-responses"}, bd})
+		plans = append(plans, plan{scfg{Name: "stray-responses", U: []uint16{1, 2, 3, 4, 5}, E: 3, Invokers: []uint16{1, 2, 3}, Byz: []uint16{4, 5}, React: "stray-responses"}, bd})
+		plans = append(plans, plan{scfg{Name: "stray-responses", U: []uint16{1, 2, 3, 4, 5, 6}, E: 2, Invokers: []uint16{1, 2}, Byz: []uint16{3, 4, 5, 6}, React: "stray-responses"}, bd})
 	}
 	// honest retries: one member is late, the others fail and try again
 	for _, u := range [][]uint16{{1, 2, 3}} {
